@@ -270,6 +270,18 @@ def runSeq (step : T → Action T V E) : List Nat → Runtime T V E → RunResul
     let y := runSeq step bs x.rt
     { y with steps := x.steps + y.steps }
 
+/-- `Runtime::run_with_granularity(n)` (and `Runtime::run()` = granularity `u32::MAX`): call `run_n_steps(n)`
+    again and again while it answers `OutOfSteps`; the answer of the last call is returned as it is (its
+    `steps_consumed` is that of the last call only).  The loop has no bound in the code — it spins for ever
+    when every call answers `OutOfSteps` — so the model takes the number of calls allowed as fuel; `none` = more
+    calls would be needed. -/
+def runG (step : T → Action T V E) (n : Nat) : Nat → Runtime T V E → Option (RunResult T V E)
+  | 0, _ => none
+  | fuel + 1, r =>
+    match (runN step n r).status with
+    | .outOfSteps => runG step n fuel (runN step n r).rt
+    | _ => some (runN step n r)
+
 /-- An embedder with host functions: one entry per `run_n_steps` call — the budget and whether the
     pending host calls are serviced after the call (`false` = the host is slow: it calls again first).
     It stops at the call in which the main thread finishes or is reported failed.
